@@ -358,6 +358,29 @@ impl<F: Field> Circuit<F> {
                         F::ZERO // skip
                     };
 
+                    // A slot is created once per row: when `a` already takes the creator role
+                    // for a private input / hint output, the same slot in the `b` or `c`
+                    // position of this row is a plain reader (e.g. `p * p`, `mul_add(p, x, p)`).
+                    let a_creates = |w: &WitnessId| a_state == F::TWO && w.0 == a.0;
+
+                    // b and out creator flags (now independent).
+                    // Private inputs can be b-creators even in the forward case.
+                    let b_is_private_creator = !b_already_defined
+                        && (private_input_wids.contains(&b.0) || hint_output_wids.contains(&b.0));
+                    // A hint output in the `out` slot is a backward op: the hint value is given,
+                    // so `b` is the witness this row solves for and takes the bus creator role
+                    // (the hint output itself is still created via `out_is_creator`).
+                    // The same holds for a private input in the `out` slot (`p - x` is lowered to
+                    // `x + result = p` with the given `p` as `out`).
+                    let out_is_backward = out_already_defined
+                        || hint_output_wids.contains(&out.0)
+                        || private_input_wids.contains(&out.0);
+                    let out_is_creator = F::from_bool(!out_already_defined);
+                    let b_creates = (b_is_private_creator
+                        || out_is_backward && !b_already_defined)
+                        && !a_creates(b);
+                    let b_is_creator = F::from_bool(b_creates);
+
                     // `c` is absent for Add/Mul/BoolCheck. Do not use WitnessId(0) as a fake c:
                     // witness 0 may hold Const(0); treating it as c would set c_state = reader and
                     // duplicate WitnessChecks reads with b when assert_zero connects the sub result
@@ -365,7 +388,8 @@ impl<F: Field> Circuit<F> {
                     let (c_wid, c_state) = c.as_ref().map_or((WitnessId(0), F::ZERO), |w| {
                         let c_defined = (w.0 as usize) < defined.len() && defined[w.0 as usize];
                         let c_aliased_by_out = !out_already_defined && w.0 == out.0;
-                        let c_state = if c_defined {
+                        let created_in_row = a_creates(w) || (b_creates && w.0 == b.0);
+                        let c_state = if c_defined || created_in_row {
                             F::ONE // reader
                         } else if (private_input_wids.contains(&w.0)
                             || hint_output_wids.contains(&w.0))
@@ -377,18 +401,6 @@ impl<F: Field> Circuit<F> {
                         };
                         (*w, c_state)
                     });
-
-                    // b and out creator flags (now independent).
-                    // Private inputs can be b-creators even in the forward case.
-                    let b_is_private_creator =
-                        !b_already_defined && private_input_wids.contains(&b.0);
-                    // A hint output in the `out` slot is a backward op: the hint value is given,
-                    // so `b` is the witness this row solves for and takes the bus creator role
-                    // (the hint output itself is still created via `out_is_creator`).
-                    let out_is_backward = out_already_defined || hint_output_wids.contains(&out.0);
-                    let out_is_creator = F::from_bool(!out_already_defined);
-                    let b_is_creator =
-                        F::from_bool(b_is_private_creator || out_is_backward && !b_already_defined);
 
                     preprocessed.primitive[PrimitiveOpType::Alu as usize].extend([
                         sel_add_vs_mul,
